@@ -1604,6 +1604,12 @@ def rule_owner(ctx, classes=SKETCH_CLASSES):
         for n in walk_no_nested(d.node):
             if isinstance(n, ast.Assign) and len(n.targets) == 1 and isinstance(n.targets[0], ast.Name):
                 nm, a_ = n.targets[0].id, self_attr(n.value)
+                # `getattr(self, "shm", None)`: the handle, or a falsy stand-in when the attribute was never set (what the
+                # `try: ... except AttributeError: pass` around the original test is for)
+                v_ = n.value
+                if a_ is None and isinstance(v_, ast.Call) and dotted(v_.func) == "getattr" and len(v_.args) == 3 and dotted(v_.args[0]) == "self" \
+                        and isinstance(v_.args[1], ast.Constant) and isinstance(v_.args[2], ast.Constant) and not v_.args[2].value:
+                    a_ = v_.args[1].value
                 if a_ in ("shm", "existing_shm"):
                     alias[nm] = None if alias.get(nm, a_) != a_ else a_
                 elif not (isinstance(n.value, ast.Constant) and n.value.value is None) and nm in alias:
